@@ -185,7 +185,7 @@ Section HP.
     hp_remove K maskf hp (hp_apply K maskf hp (b0 :: mid ++ pn) payload) (1 + Zlen mid)
       = (b0 :: mid ++ pn, as_c_int (be_int pn)).
   Proof.
-    intros hp b0 mid pn payload Hpn. unfold hp_remove.
+    intros hp b0 mid pn payload Hpn. unfold hp_remove, hp_remove_conv.
     rewrite hp_apply_shape by assumption.
     set (m := the_mask hp (Zlen pn) payload).
     set (pn' := xor_list pn (pn_mask m (Zlen pn))).
@@ -405,7 +405,7 @@ Section IDEAL.
     decrypt_packet K maskf open_ next_ctx cx pkt off e = Some (hdr, p, pn, upd) ->
     exists cr, (cr = cx \/ cr = next_ctx cx) /\ pkt = sealed_by cx cr hdr p pn.
   Proof.
-    intros cx pkt off e hdr p pn upd Ho Hl H. unfold decrypt_packet, hp_remove in H.
+    intros cx pkt off e hdr p pn upd Ho Hl H. unfold decrypt_packet, decrypt_packet_conv, hp_remove_conv in H.
     destruct (hp_remove_raw K maskf (c_hp K cx) pkt off) as [h t] eqn:Er.
     destruct (select_ctx K next_ctx cx (byte_at h 0)) as [cr u] eqn:Es.
     unfold aead_decrypt in H.
@@ -448,7 +448,7 @@ Section IDEAL.
     set (ct := seal (c_key K cx) (nonce (c_iv K cx) pn) hdr p).
     assert (Hct : Zlen ct = Zlen p + 16) by apply Hlen.
     pose proof (Zlen_nonneg _ p). pose proof (Zlen_nonneg _ hdr).
-    unfold decrypt_packet. fold pnl.
+    unfold decrypt_packet, decrypt_packet_conv. fold pnl. change (hp_remove_conv K maskf as_c_int) with (hp_remove K maskf).
     pose proof (land3_range (byte_at hdr 0)).
     rewrite hp_roundtrip_lemma; try (fold pnl; lia).
     fold pnl. rewrite Hpn.
